@@ -14,6 +14,7 @@ import Engeom.Driver.C17
 import Engeom.Driver.C19
 import Engeom.Driver.C13
 import Engeom.Driver.C07
+import Engeom.Driver.C10
 
 def dispatch (op : String) (args : List String) : Option String :=
   match (op.splitOn ".").head! with
@@ -34,6 +35,7 @@ def dispatch (op : String) (args : List String) : Option String :=
   | "frame" | "basis" | "plane" => DrvC19.handle op args
   | "chain" | "section" => DrvC13.handle op args
   | "align" => DrvC07.handle op args
+  | "airfoil" => DrvC10.handle op args
   | _ => none
 
 partial def loop (h : IO.FS.Stream) (out : IO.FS.Stream) : IO Unit := do
